@@ -87,6 +87,7 @@ def gen(tape, for_c10=False):
   return {'meas': meas, 'ops': ops, 'pre_diag': tape.chance(400, 'pre_diag'), 'pre_diag_internal': tape.chance(400, 'pre_diag_internal'), 'pre_attach': tape.chance(500, 'pre_attach'), 'allow_unset': tape.chance(200, 'allow_unset'),
           'inline_attachments': tape.chance(600, 'inline'), 'allow_nan': tape.chance(200, 'allow_nan'),
           'watcher': tape.chance(300, 'watcher') if for_c10 else False,
+          'chatter': (1 + tape.draw(4, 'nchatter')) if (for_c10 and tape.chance(300, 'chatter')) else 0,
           # the same Test executed once before the observed run; in that earlier run the
           # pre-diagnosis result exists (conditional validators active), in the observed one it does not
           'prior_run': (not for_c10) and tape.chance(250, 'prior_run')}
@@ -285,7 +286,10 @@ def run(tape, for_c10):
     # as_base_types() calls are a separate, known matter)
     while wout.get('in_render'):
       core.sim_sleep(0)
+    nlogs_before = len(state.test_record.log_records)
     snap = state.as_base_types()
+    nlogs_rendered = len(snap['test_record']['log_records'])   # (the rendered list is the live cache: count it now)
+    nlogs_after = len(state.test_record.log_records)
     rps = snap['running_phase_state']
     live = state.running_phase_state
     item = {'op': i, 'meas': {}, 'att': None}
@@ -303,7 +307,8 @@ def run(tape, for_c10):
         }
       item['att'] = (copy.deepcopy(rps['attachments']),
                      dict((n, {'mimetype': a.mimetype, 'sha1': a.sha1}) for n, a in live.attachments.items()))
-      item['nlogs'] = (len(snap['test_record']['log_records']), len(state.test_record.log_records))
+      # (another thread of the phase may be logging meanwhile: the rendering must lie in between)
+      item['nlogs'] = (nlogs_rendered, nlogs_before, nlogs_after)
     obs['reads'].append(item)
 
   hooks = {'value': value_of, 'read': read_hook}
